@@ -190,6 +190,7 @@ func init() {
 		wireTables(w, r, "C01")
 		wireOrder(wc, r, "C01", "enc")
 		wireDecimalLiterals(w, r, "C01")
+		optionSemantics(w, r, "C01")
 		wireCppBeName(wc, r, "C01", []string{"enc"}, 1<<kBasic|1<<kLength|1<<kCheckSum)
 		wirePaddingSiblings(wc, r, "C01")
 		wireAssumptions(r)
@@ -206,6 +207,7 @@ func init() {
 		wireLEColumn(wc, r, "C02", "dec")
 		wireArgOrder(wc, r, "C02")
 		wirePairDedup(w, wc, r, "C02/decode-arm-per-key", "dec")
+		optionSemantics(w, r, "C02")
 		wireCppBeName(wc, r, "C02", []string{"dec"}, 1<<kBasic|1<<kLength|1<<kCheckSum)
 		wireOrder(wc, r, "C02", "dec")
 		wireAssumptions(r)
@@ -216,6 +218,7 @@ func init() {
 		matrixEvidence(wc, r)
 		wireSiblingMatrix(wc, r)
 		wirePairDedup(w, wc, r, "C03/dispatch-arm-per-key", "dec")
+		optionSemantics(w, r, "C03")
 		wirePaddingSiblings(wc, r, "C03")
 		wirePadSpellings(w, wc, r)
 		wireTables(w, r, "C03")
@@ -719,6 +722,52 @@ func wireCppBeName(wc *wireCtx, r *Report, prop string, dirs []string, kinds uin
 	}
 }
 
+func allEmpty(l []ast.Stmt) bool {
+	for _, st := range l {
+		if _, ok := st.(*ast.EmptyStmt); !ok {
+			return false
+		}
+	}
+	return true
+}
+
+// enclosingIf: the innermost if statement of fn's source whose condition contains the given value's position.
+func enclosingIf(w *World, fn *ssa.Function, cond ssa.Value) *ast.IfStmt {
+	if cond == nil {
+		return nil
+	}
+	pos := cond.Pos()
+	if !pos.IsValid() {
+		// a load or call inside the condition carries the position
+		if u, ok := cond.(*ssa.UnOp); ok {
+			pos = u.X.Pos()
+			if !pos.IsValid() {
+				if fa, ok := u.X.(*ssa.FieldAddr); ok {
+					pos = fa.X.Pos()
+				}
+			}
+		}
+	}
+	if !pos.IsValid() {
+		return nil
+	}
+	var best *ast.IfStmt
+	for _, p := range w.Pkgs {
+		for _, f := range p.Syntax {
+			if pos < f.Pos() || pos > f.End() {
+				continue
+			}
+			ast.Inspect(f, func(n ast.Node) bool {
+				if ifs, ok := n.(*ast.IfStmt); ok && ifs.Cond.Pos() <= pos && pos <= ifs.Cond.End() {
+					best = ifs
+				}
+				return true
+			})
+		}
+	}
+	return best
+}
+
 var beCounterpart = map[string]string{"java": "BasicType", "python": "BasicType", "lua": "Be"}
 
 func wireLEColumn(wc *wireCtx, r *Report, prop, dir string) {
@@ -740,6 +789,17 @@ func wireLEColumn(wc *wireCtx, r *Report, prop, dir string) {
 					applies = beBits&sTY != 0 && len(beCols) == 0
 				}
 				if !applies {
+					// mirror image: the big-endian side reads the Le column and the little-endian side does not - the arms are swapped
+					if beCols["Le"] && !leCols["Le"] {
+						n++
+						kb := fmt.Sprintf("%s byte-order selection", fnKey(fn))
+						counts[kb]++
+						key := kb
+						if counts[kb] > 1 {
+							key = fmt.Sprintf("%s#%d", kb, counts[kb])
+						}
+						r.fail(rule, key, pos, "the table's Le column is read on the big-endian side of the byte-order test and not on the little-endian side: the two byte orders are swapped")
+					}
 					return
 				}
 				n++
@@ -819,6 +879,52 @@ func wireLEColumn(wc *wireCtx, r *Report, prop, dir string) {
 				}
 				if nl > 0 && nb > 0 {
 					verdict(lc, bc, lb, bb, wc.m.w.instrPos(b.Instrs[len(b.Instrs)-1]))
+				}
+				// an arm that emits nothing while its sibling emits a type-derived accessor: one byte order gets no code at all
+				wireBits := sTY | sTBL | sSP | sAP | sLFT
+				if (nl == 0) != (nb == 0) && (lb|bb)&wireBits != 0 && len(b.Succs) == 2 {
+					n++
+					kb := fmt.Sprintf("%s byte-order arms both emit", fnKey(fn))
+					counts[kb]++
+					key := kb
+					if counts[kb] > 1 {
+						key = fmt.Sprintf("%s#%d", kb, counts[kb])
+					}
+					which := "little-endian"
+					if nb == 0 {
+						which = "big-endian"
+					}
+					// only when the silent arm is a real arm (not the fall-through of `if le { suffix = "_le" }`)
+					silent := b.Succs[leSucc]
+					if nb == 0 {
+						silent = b.Succs[1-leSucc]
+					}
+					other := b.Succs[1-leSucc]
+					if nb == 0 {
+						other = b.Succs[leSucc]
+					}
+					join := false
+					for _, sc := range other.Succs {
+						if sc == silent {
+							join = true // if-without-else: the "silent arm" is the join block
+						}
+					}
+					if join {
+						// ... unless the source has that arm and it is empty (SSA construction folds an empty arm into the join)
+						if ifs := enclosingIf(wc.m.w, fn, branchCond(b)); ifs != nil {
+							emptyThen := len(ifs.Body.List) == 0 || allEmpty(ifs.Body.List)
+							emptyElse := false
+							if eb, ok := ifs.Else.(*ast.BlockStmt); ok {
+								emptyElse = len(eb.List) == 0 || allEmpty(eb.List)
+							}
+							if emptyThen || emptyElse {
+								join = false
+							}
+						}
+					}
+					if !join {
+						r.fail(rule, key, wc.m.w.instrPos(b.Instrs[len(b.Instrs)-1]), "the "+which+" arm of this byte-order test emits nothing while the other arm emits a type-derived read/write: for that byte order the field is not encoded/decoded at all")
+					}
 				}
 			}
 		}
